@@ -255,6 +255,49 @@ pub fn exhaustive_pairs() -> Vec<String> {
     out
 }
 
+/// Third family: numerals and tokens at the edges of what a field can hold, in every syntactic
+/// position (single value, either range end, step, list item), other fields `*`.
+pub fn boundary_numerics() -> Vec<String> {
+    let toks = [
+        "0", "1", "6", "7", "8", "12", "13", "23", "24", "31", "32", "59", "60", "61", "99", "100", "127", "128", "255", "256", "257", "260", "300", "511",
+        "512", "1000", "65535", "65536", "4294967295", "4294967296", "18446744073709551616", "-1", "+1", "1.0", "0x1", "1e1", "١", "１",
+    ];
+    let mut out = Vec::new();
+    for idx in 0..5 {
+        let lo = LO[idx];
+        let hi = HI[idx];
+        for t in toks {
+            out.push(with_field(idx, t));
+            out.push(with_field(idx, &format!("{}-{}", lo, t)));
+            out.push(with_field(idx, &format!("{}-{}", t, hi)));
+            out.push(with_field(idx, &format!("*/{}", t)));
+            out.push(with_field(idx, &format!("{},{}", lo, t)));
+            out.push(with_field(idx, &format!("{},{}", t, hi)));
+        }
+    }
+    // names: prefixes, extensions, look-alikes that only differ after Unicode case mapping
+    for (idx, names) in [(3usize, &MONTH_NAMES[..]), (4usize, &DOW_NAMES[..])] {
+        for n in names {
+            let full = match (idx, *n) {
+                (3, "jan") => "january",
+                (3, "sep") => "sept",
+                (4, "sun") => "sunday",
+                (4, "thu") => "thurs",
+                _ => "",
+            };
+            for v in [n[..2].to_string(), format!("{}x", n), format!("{}.", n), format!(" {}", n), full.to_string(), n.replace('s', "ſ"), n.replace('i', "ı"), n.replace('k', "\u{212a}")] {
+                if !v.is_empty() && v != *n {
+                    out.push(with_field(idx, &v));
+                    out.push(with_field(idx, &format!("{}-{}", v, v)));
+                }
+            }
+        }
+        // a name of the other field
+        out.push(with_field(idx, if idx == 3 { "mon" } else { "jan" }));
+    }
+    out
+}
+
 pub const MUT_ALPHABET: &[char] = &[
     '0', '1', '2', '3', '5', '7', '9', '*', '/', ',', '-', '+', ' ', '\t', 'a', 'j', 'n', 's', 'u',
     'z', 'A', 'M', 'é', '.',
